@@ -2548,6 +2548,7 @@ static void bufr_transfer_rtmd
    while ( node )
       {
       cb = (BufrDescriptor *)node->data;
+      if (cb->meta) bufr_free_rtmd( cb->meta ); /* set by the expansion of a nested sequence */
       cb->meta = bufr_duplicate_rtmd( rtmd );
       node = lst_nextnode( node );
       }
